@@ -116,6 +116,41 @@ def mt_pledge_control(prog, res):
               "a failed pledged-size comparison in the multithreaded branch no longer produces srcSize_wrong")
 
 
+def stream_session_reset(prog, res):
+    """T13: the streaming decoder keeps positions across calls (bytes of the current item already buffered, flushed and
+    produced offsets of the output buffer, loaded header size).  A session can be abandoned at any point (truncated
+    stream, then ZSTD_DCtx_reset / ZSTD_initDStream); the next stream starts in the zdss_init stage, which must zero EVERY
+    such position: the fields ZSTD_decompressStream advances with += / -= (derived from its own code).  A stale position
+    makes `expected == inPos` true on the first item of the next frame: a truncated frame is reported complete."""
+    R = "T13.dstream-session-reset"
+    f = prog.fn("ZSTD_decompressStream")
+    acc = {}
+    for b, i, x in f.events(lambda y: y.get("k") == "asg" and y.get("op") in ("+=", "-=")):
+        l = strip_casts(x["lhs"])
+        if l.get("k") == "mem" and l.get("rec") == "ZSTD_DCtx_s":
+            acc.setdefault(l["f"], x.get("l"))
+    init = case_blocks(f, {"zdss_init"})
+    nxt = set(case_blocks(f, {"zdss_loadHeader"}))
+    res.check(len(init) == 1 and acc, R, "anchors", f.loc, "positions advanced by the streaming decoder: %s" % sorted(acc), "zdss_init case or accumulators not found")
+    if len(init) != 1:
+        return
+    region = {n[0] for n in f.flow([(init[0], 0)], cut_blocks=nxt)}
+    zeroed = set()
+    for b in region:
+        for r in f.blocks[b]["el"]:
+            for x in walk(r):
+                if x.get("k") == "asg" and x.get("op") == "=":
+                    l = strip_casts(x["lhs"])
+                    if l.get("k") == "mem" and l.get("rec") == "ZSTD_DCtx_s":
+                        zeroed.add(l["f"])
+    for fld in sorted(acc):
+        res.check(fld in zeroed, R, "zdss_init:" + fld, f.loc, "zeroed when a stream starts",
+                  "zds->%s is advanced by ZSTD_decompressStream (line %s) but not reset in the zdss_init stage: after an abandoned stream and a "
+                  "session reset the stale position is taken for progress on the next frame (a truncated frame can be reported complete, or the "
+                  "load stage writes past the input buffer)" % (fld, acc[fld]))
+    res.need(R, 3)
+
+
 def run(tier):
     res = Result("C09", tier)
     tus, info = extract(["decompress", "compress"])
@@ -275,6 +310,7 @@ def run(tier):
     res.check(len(nopledge) == 1 and len(nopledge2) == 1, R, "pledge-known-tests", c.loc, "pledged-size-known tests present",
               "`pledgedSrcSizePlusOne != 0` tests: %d/%d" % (len(nopledge), len(nopledge2)))
     mt_pledge_control(prog, res)
+    stream_session_reset(prog, res)
     # the MT path ends frames through the same function (worker-side)
     if prog.has_fn("ZSTDMT_compressionJob"):
         j = prog.fn("ZSTDMT_compressionJob")
